@@ -6,8 +6,10 @@ package dtls
 //symgo:stub DTLS 1.2 CipherSuite is a harness fake: Decrypt returns the record unchanged iff the symbolic flag auth_ok is set, else an error (authentication of the real AEAD/MAC is assumed; the flag is arbitrary); Encrypt is the identity so emitted records can be parsed
 //symgo:stub time.Now is replaced by an arbitrary non-decreasing symbolic clock; time.AfterFunc/Timer.Stop/Timer.Reset by no-op timers; crypto/rand.Read by fresh symbolic bytes (recorded)
 //symgo:stub the transport is a harness fake that records every datagram with its destination
-//symgo:assume pre-state of the replay window: a fresh window in which at most one earlier sequence number `prev` has been accepted (general windows are covered by C06); pre-state of the path manager for the candidate address: none, or the state its own API produces after r bytes were received from the candidate (0 < r < 2^31), optionally w bytes were granted towards it, optionally a challenge was started, at arbitrary instants
-//symgo:outside two candidate paths racing inside one step (see zzMigrationTrace for sequences), timers firing concurrently with the receive path, DTLS 1.3 receive path (same HandleRecord/HandleCandidate code; its CID/replay front end belongs to C05)
+//symgo:stub zzMigrationScenario13: RecordProtection13 is a harness fake (Seal: content || type || zero padding to 16; Open: the inverse iff the symbolic verdict flag is set; UnmaskSequenceNumber: identity)
+//symgo:assume pre-state of the replay window: a fresh window in which at most one earlier sequence number `prev` (symbolic) has been accepted, and the arriving number stands in one of eight enumerated relations to it (general windows are covered by C06); pre-state of the path manager for the candidate address: none, or the state its own API produces after r bytes were received from the candidate (0 < r < 2^16), w bytes were granted towards it (0 <= w < 2^18, within budget), optionally a challenge was started, at arbitrary instants
+//symgo:assume zzMigrationScenario: the two random 64-bit cookies issued to the two candidate addresses differ
+//symgo:outside two candidate paths racing inside one step (see zzMigrationScenario for sequences), timers firing concurrently with the receive path, the single-record entries use the DTLS 1.2 receive path only (DTLS 1.3 is exercised by zzMigrationScenario13; its CID/replay front end belongs to C05)
 
 import (
 	"context"
@@ -25,13 +27,13 @@ import (
 // ---------------------------------------------------------------- stubs
 
 var (
-	zzSwSec       int64 // last clock reading (seconds)
-	zzSwFirstSec  int64 // first clock reading of the step under test
-	zzSwHaveFirst bool
+	zzSwSec         int64 // last clock reading (seconds)
+	zzSwFirstSec    int64 // first clock reading of the step under test
+	zzSwHaveFirst   bool
 	zzSwTickPending = true
 	zzSwFineClock   bool // every reading may advance (thorough tier, selected entries)
-	zzSwRand                  [][]byte
-	zzSwErrAuth               = errors.New("zz: authentication failed")
+	zzSwRand        [][]byte
+	zzSwErrAuth     = errors.New("zz: authentication failed")
 )
 
 func zzSwNow() time.Time {
@@ -55,8 +57,8 @@ func zzSwNow() time.Time {
 func zzSwTick() { zzSwTickPending = true }
 
 func zzSwAfterFunc(d time.Duration, f func()) *time.Timer { return &time.Timer{} }
-func zzSwTimerStop(t *time.Timer) bool                     { return true }
-func zzSwTimerReset(t *time.Timer, d time.Duration) bool   { return true }
+func zzSwTimerStop(t *time.Timer) bool                    { return true }
+func zzSwTimerReset(t *time.Timer, d time.Duration) bool  { return true }
 func zzSwRandRead(b []byte) (int, error) {
 	r := zzsymBytes("rand", len(b))
 	copy(b, r)
@@ -111,6 +113,18 @@ func zzSwConn(nLocal, nRemote int, rrcNeg bool) (*Conn, *zzTxPC, *zzSwSuite, []b
 		replaydetector.New(64, recordlayer.MaxSequenceNumber),
 	}
 	return c, pc, suite, common.LocalConnectionID()
+}
+
+// zzSwConn13: established DTLS 1.3 server connection (epoch 3 both ways), RRC negotiated.
+func zzSwConn13(nLocal, nRemote int) (*Conn, *zzTxPC, *zzTxProt13, []byte) {
+	c, pc, _, prot, _ := zzTxConn(true, false, nRemote, nLocal, true)
+	st := c.state.(*dtlsstate.State13)
+	st.TrafficKeys.Install(nil, &dtlsstate.TrafficGeneration{Epoch: 3, Protection: prot})
+	c.fragmentBuffer = dtlsfragmentbuffer.New()
+	c.decrypted = make(chan any, 1)
+	c.replayProtectionWindow = 64
+	c.rAddr = zzSwAddrA
+	return c, pc, prot, dtlsstate.CommonState(c.state).LocalConnectionID()
 }
 
 func zzSwSeq48(name string) (uint64, []byte) {
@@ -193,10 +207,13 @@ func zzSwParseSent(w zzTxWrite, nRemote int) zzSwSent {
 
 // zzSwStep drives one record through Conn.processIncomingPacket and checks every clause of the address
 // rule. kinds lists the record kinds to enumerate, rrcChoice fixes (0/1) or enumerates (2) the RRC flag.
-func zzSwStep(kinds []int, rrcNeg bool, epoch uint16, fromActive bool) {
-	nLocal := 0
-	if zzsymChoice("local_cid", 2) == 1 {
-		nLocal = zzsymParam("NLCID")
+func zzSwStep(kinds []int, rrcNeg bool, epoch uint16, fromActive bool, bothLocal bool) {
+	nLocal := zzsymParam("NLCID")
+	if bothLocal || zzsymParam("ALLDIMS") == 1 {
+		// local CID length 0 as well (quick tier: only in the entries that say so)
+		if zzsymChoice("local_cid", 2) == 0 {
+			nLocal = 0
+		}
 	}
 	nRemote := 1
 	if zzsymParam("ALLDIMS") == 1 {
@@ -357,11 +374,11 @@ func zzSwStep(kinds []int, rrcNeg bool, epoch uint16, fromActive bool) {
 	}
 }
 
-
 // ---------------------------------------------------------------- entries
 //
 // Common arrival model of the entries below: an established DTLS 1.2 server connection whose CID decision
-// was committed by the real code (local CID length 0 or NLCID, peer CID length 1; thorough tier also 0),
+// was committed by the real code (local CID length NLCID, and also 0 in zzAddrSwitchRRCRecord,
+// zzAddrNeverSwitchesWithoutRRC and everywhere in the thorough tier; peer CID length 1, thorough tier also 0),
 // validated peer address A. One record arrives: its sequence number is newer than, equal to, just below, at the edge of or beyond
 // the 64-wide replay window around one arbitrary earlier accepted number (or the window is empty), plain or tls12_cid
 // layout with arbitrary CID bytes, authentication verdict arbitrary, clock arbitrary (non-decreasing whole
@@ -378,7 +395,7 @@ func zzSwStep(kinds []int, rrcNeg bool, epoch uint16, fromActive bool) {
 //symgo:entry covers=address_switched,address_kept,challenge_sent,sent_to_candidate,record_rejected,stale_accepted
 func zzAddrSwitchRRCRecord() {
 	zzSwFineClock = zzsymParam("ALLDIMS") == 1
-	zzSwStep([]int{1}, true, 1, false)
+	zzSwStep([]int{1}, true, 1, false, true)
 }
 
 // Every other record type (application data, alert, handshake fragment, change_cipher_spec, ACK) from the
@@ -391,7 +408,7 @@ func zzAddrSwitchOtherRecords() {
 	if zzsymParam("ALLDIMS") == 1 {
 		kinds = []int{0, 2, 3, 4, 5}
 	}
-	zzSwStep(kinds, true, 1, false)
+	zzSwStep(kinds, true, 1, false, false)
 }
 
 // All record types including return-routability messages from the new address B, RRC NOT negotiated.
@@ -399,7 +416,7 @@ func zzAddrSwitchOtherRecords() {
 //
 //symgo:entry covers=address_kept,record_rejected,stale_accepted
 func zzAddrNeverSwitchesWithoutRRC() {
-	zzSwStep([]int{0, 1, 2, 3, 4, 5}, false, 1, false)
+	zzSwStep([]int{0, 1, 2, 3, 4, 5}, false, 1, false, true)
 }
 
 // Unprotected (epoch 0) records of all types from the new address B, RRC negotiated: never authentic, so
@@ -407,7 +424,7 @@ func zzAddrNeverSwitchesWithoutRRC() {
 //
 //symgo:entry covers=address_kept,record_rejected
 func zzAddrSwitchEpoch0() {
-	zzSwStep([]int{0, 1, 2, 3, 4, 5}, true, 0, false)
+	zzSwStep([]int{0, 1, 2, 3, 4, 5}, true, 0, false, false)
 }
 
 // All record types from the already validated address A, RRC negotiated (a path challenge from the peer is
@@ -415,7 +432,7 @@ func zzAddrSwitchEpoch0() {
 //
 //symgo:entry covers=address_kept,record_rejected
 func zzAddrRecordFromValidated() {
-	zzSwStep([]int{0, 1, 2, 3, 4, 5}, true, 1, true)
+	zzSwStep([]int{0, 1, 2, 3, 4, 5}, true, 1, true, false)
 }
 
 // ---------------------------------------------------------------- scripted migration scenario
@@ -426,9 +443,9 @@ func zzSwSeqBytes(seq uint64) []byte {
 
 // zzSwChallengeTo returns the cookie of the single path_challenge written to addr since write index i0
 // (found = false if there is none) and the number of bytes written to addr since i0.
-func zzSwChallengeTo(pc *zzTxPC, i0 int, addr net.Addr, nRemote int) (cookie []byte, found bool, bytes int) {
+func zzSwChallengeTo(pc *zzTxPC, i0 int, addr net.Addr, parse func(zzTxWrite) zzSwSent) (cookie []byte, found bool, bytes int) {
 	for _, w := range pc.writes[i0:] {
-		s := zzSwParseSent(w, nRemote)
+		s := parse(w)
 		if s.to != addr {
 			continue
 		}
@@ -439,6 +456,33 @@ func zzSwChallengeTo(pc *zzTxPC, i0 int, addr net.Addr, nRemote int) (cookie []b
 		}
 	}
 	return
+}
+
+// zzSwRecord13 lays out one DTLS 1.3 ciphertext record for the harness AEAD (RFC 9147 section 4 unified
+// header with C, S and L bits, epoch low bits 3; "ciphertext" = content || type || zero padding to 16 bytes).
+func zzSwRecord13(cid []byte, seq uint64, realType byte, content []byte) []byte {
+	enc := append(append([]byte{}, content...), realType)
+	for len(enc) < 16 {
+		enc = append(enc, 0)
+	}
+	r := []byte{0x20 | 0x10 | 0x08 | 0x04 | 3}
+	r = append(r, cid...)
+	r = append(r, byte(seq>>8), byte(seq), byte(len(enc)>>8), byte(len(enc)))
+	return append(r, enc...)
+}
+
+// zzSwParseSent13 decodes a DTLS 1.3 record sealed by the harness AEAD (peer CID of nRemote bytes).
+func zzSwParseSent13(w zzTxWrite, nRemote int) zzSwSent {
+	s := zzSwSent{to: w.to, size: len(w.data)}
+	enc := w.data[5+nRemote:]
+	i := len(enc) - 1
+	for i > 0 && enc[i] == 0 {
+		i--
+	}
+	if enc[i] == 27 && i == 9 {
+		s.isRRC, s.msgType, s.cookie = true, enc[0], enc[1:9]
+	}
+	return s
 }
 
 // Migration with spoofing, replay and racing paths, end to end through Conn.processIncomingPacket (DTLS 1.2
@@ -454,28 +498,66 @@ func zzSwChallengeTo(pc *zzTxPC, i0 int, addr net.Addr, nRemote int) (cookie []b
 //     the challenge was sent; the honest case (B, B's cookie, in time) does switch;
 //  5. after a switch to B an attacker at C re-sends the very same response datagram (replay with rewritten
 //     source) or a fresh authentic response that echoes B's cookie: the address stays B.
+//
 // Throughout, the bytes sent to an unvalidated address never exceed 3x the authentic bytes received from it.
 // Named assumption: the two random cookies differ.
 //
 //symgo:entry covers=mig_switched_b,mig_switched_c,mig_wrong_source,mig_wrong_cookie,mig_replayed,mig_forged,mig_late,mig_replay_after_switch_refused,mig_stolen_cookie_refused
 func zzMigrationScenario() {
+	zzMigrationRun(false)
+}
+
+// The same migration scenario on a DTLS 1.3 server connection (epoch 3, unified header with the local CID,
+// records opened and sealed by a harness AEAD whose verdict is an arbitrary flag; sequence number s in 1..100
+// so that the 16-bit wire value reconstructs to s): same five steps, same claims.
+//
+//symgo:entry covers=mig_switched_b,mig_switched_c,mig_wrong_source,mig_wrong_cookie,mig_replayed,mig_forged,mig_late,mig_replay_after_switch_refused,mig_stolen_cookie_refused
+func zzMigrationScenario13() {
+	zzMigrationRun(true)
+}
+
+func zzMigrationRun(v13 bool) {
 	zzSwFineClock = zzsymParam("ALLDIMS") == 1
 	nLocal, nRemote := zzsymParam("NLCID"), 1
-	c, pc, suite, localCID := zzSwConn(nLocal, nRemote, true)
-	suite.authOK = true
+	var c *Conn
+	var pc *zzTxPC
+	var mk func(seq uint64, realType byte, content []byte) []byte
+	var parse func(zzTxWrite) zzSwSent
+	var setAuth func(bool)
+	if v13 {
+		var prot *zzTxProt13
+		var localCID []byte
+		c, pc, prot, localCID = zzSwConn13(nLocal, nRemote)
+		mk = func(seq uint64, t byte, content []byte) []byte { return zzSwRecord13(localCID, seq, t, content) }
+		parse = func(w zzTxWrite) zzSwSent { return zzSwParseSent13(w, nRemote) }
+		setAuth = func(ok bool) { prot.openOK = ok }
+	} else {
+		var suite *zzSwSuite
+		var localCID []byte
+		c, pc, suite, localCID = zzSwConn(nLocal, nRemote, true)
+		mk = func(seq uint64, t byte, content []byte) []byte {
+			return zzSwRecord(localCID, true, 1, zzSwSeqBytes(seq), t, content)
+		}
+		parse = func(w zzTxWrite) zzSwSent { return zzSwParseSent(w, nRemote) }
+		setAuth = func(ok bool) { suite.authOK = ok }
+	}
+	setAuth(true)
 	ctx := context.Background()
 	s1, _ := zzSwSeq48("s")
 	zzsymAssume(zzsymAnd(s1 >= 1, s1 <= recordlayer.MaxSequenceNumber-10))
+	if v13 {
+		zzsymAssume(s1 <= 100)
+	}
 	var fromB, fromC, toB, toC int
 
 	// 1. newest authentic record from B
-	rec1 := zzSwRecord(localCID, true, 1, zzSwSeqBytes(s1), 23, zzsymBytes("app1", 3))
+	rec1 := mk(s1, 23, zzsymBytes("app1", 3))
 	zzSwTick()
 	_, err := c.processIncomingPacket(ctx, rec1, zzSwAddrB, nil)
 	zzsymAssert(err == nil, "record_accepted")
 	<-c.decrypted
 	fromB += len(rec1)
-	chB, okB, n := zzSwChallengeTo(pc, 0, zzSwAddrB, nRemote)
+	chB, okB, n := zzSwChallengeTo(pc, 0, zzSwAddrB, parse)
 	toB += n
 	tB := zzSwSec
 	if !zzSwFineClock {
@@ -494,14 +576,14 @@ func zzMigrationScenario() {
 	raceC := zzsymChoice("third_address", 2) == 1
 	if raceC {
 		w0 := len(pc.writes)
-		rec2 := zzSwRecord(localCID, true, 1, zzSwSeqBytes(s1+1), 23, zzsymBytes("app2", 3))
+		rec2 := mk(s1+1, 23, zzsymBytes("app2", 3))
 		zzSwTick()
 		_, err = c.processIncomingPacket(ctx, rec2, zzSwAddrC, nil)
 		zzsymAssert(err == nil, "record_accepted")
 		<-c.decrypted
 		fromC += len(rec2)
 		var okC bool
-		chC, okC, n = zzSwChallengeTo(pc, w0, zzSwAddrC, nRemote)
+		chC, okC, n = zzSwChallengeTo(pc, w0, zzSwAddrC, parse)
 		toC += n
 		tC = zzSwSec
 		if !zzSwFineClock {
@@ -537,14 +619,15 @@ func zzMigrationScenario() {
 	case 2:
 		respSeq = s1 - 1 // older, still inside the window
 	}
-	suite.authOK = zzsymBool("resp_auth_ok")
-	resp := zzSwRecord(localCID, true, 1, zzSwSeqBytes(respSeq), 27, append([]byte{1}, cookie...))
+	respAuth := zzsymBool("resp_auth_ok")
+	setAuth(respAuth)
+	resp := mk(respSeq, 27, append([]byte{1}, cookie...))
 	w0 := len(pc.writes)
 	zzSwTick()
 	zzSwHaveFirst = false
 	_, _ = c.processIncomingPacket(ctx, resp, src, nil)
 	tResp := zzSwFirstSec // first clock reading taken while handling the response (if any)
-	if zzsymAnd(suite.authOK, seqRel != 1) {
+	if zzsymAnd(respAuth, seqRel != 1) {
 		switch src {
 		case zzSwAddrB:
 			fromB += len(resp)
@@ -569,12 +652,12 @@ func zzMigrationScenario() {
 	}
 
 	sameB, sameC := zzsymEqBytes(cookie, chB), raceC && zzsymEqBytes(cookie, chC)
-	honestB := zzsymAnd(zzsymAnd(suite.authOK, seqRel != 1), zzsymAnd(src == zzSwAddrB, sameB))
+	honestB := zzsymAnd(zzsymAnd(respAuth, seqRel != 1), zzsymAnd(src == zzSwAddrB, sameB))
 	switch c.rAddr {
 	case zzSwAddrA:
 		// not switched: say why (coverage of the refusals)
 		switch {
-		case !suite.authOK:
+		case !respAuth:
 			zzsymCover("mig_forged")
 		case seqRel == 1:
 			zzsymCover("mig_replayed")
@@ -600,7 +683,7 @@ func zzMigrationScenario() {
 		zzsymAssert(tResp < tB+1, "switch_only_within_one_second_of_challenge")
 		zzsymCover("mig_switched_b")
 	case zzSwAddrC:
-		zzsymAssert(zzsymAnd(zzsymAnd(suite.authOK, seqRel != 1), zzsymAnd(src == zzSwAddrC, sameC)),
+		zzsymAssert(zzsymAnd(zzsymAnd(respAuth, seqRel != 1), zzsymAnd(src == zzSwAddrC, sameC)),
 			"switch_only_for_authentic_fresh_response_from_challenged_address_with_its_cookie")
 		zzsymAssert(tResp < tC+1, "switch_only_within_one_second_of_challenge")
 		zzsymCover("mig_switched_c")
@@ -610,18 +693,17 @@ func zzMigrationScenario() {
 	}
 
 	// 5. the connection now talks to B; an attacker at C tries to take it over
-	suite.authOK = true
+	setAuth(true)
 	switch zzsymChoice("attack", 2) {
 	case 0: // same datagram again, source rewritten
 		_, _ = c.processIncomingPacket(ctx, resp, zzSwAddrC, nil)
 		zzsymAssert(c.rAddr == zzSwAddrB, "replayed_response_from_other_address_does_not_move_the_connection")
 		zzsymCover("mig_replay_after_switch_refused")
 	case 1: // a fresh authentic response that echoes the cookie that was issued to B
-		stolen := zzSwRecord(localCID, true, 1, zzSwSeqBytes(s1+6), 27, append([]byte{1}, chB...))
+		stolen := mk(s1+6, 27, append([]byte{1}, chB...))
 		zzSwTick()
 		_, _ = c.processIncomingPacket(ctx, stolen, zzSwAddrC, nil)
 		zzsymAssert(c.rAddr == zzSwAddrB, "cookie_issued_to_one_address_does_not_validate_another")
 		zzsymCover("mig_stolen_cookie_refused")
 	}
 }
-
